@@ -140,6 +140,37 @@ func (w *World) c10Predict(dt time.Duration) []c10Pos {
 	return out
 }
 
+// perpLiqHealth: the health of a perpetual position as the force-close path would compute it right now (interest and funding
+// settled first, on a discarded copy of the state): what a third party's close-positions request would be judged on.
+func perpLiqHealth(w *World, owner string, id uint64) (h math.LegacyDec, ok bool) {
+	app := w.App
+	ctx, _ := w.Ctx().CacheContext()
+	defer func() {
+		if r := recover(); r != nil {
+			ok = false
+		}
+	}()
+	m, err := app.PerpetualKeeper.GetMTP(ctx, sdk.MustAccAddressFromBech32(owner), id)
+	if err != nil {
+		return h, false
+	}
+	pool, _ := app.PerpetualKeeper.GetPool(ctx, m.AmmPoolId)
+	ammPool, _ := app.AmmKeeper.GetPool(ctx, m.AmmPoolId)
+	if tpl, err := app.PerpetualKeeper.CalcMTPTakeProfitLiability(ctx, m); err == nil {
+		m.TakeProfitLiabilities = tpl
+	}
+	_ = m.UpdateMTPTakeProfitBorrowFactor()
+	app.PerpetualKeeper.UpdateMTPBorrowInterestUnpaidLiability(ctx, &m)
+	if _, err := app.PerpetualKeeper.SettleMTPBorrowInterestUnpaidLiability(ctx, &m, &pool, ammPool); err != nil {
+		return h, false
+	}
+	if err := app.PerpetualKeeper.SettleFunding(ctx, &m, &pool, ammPool); err != nil {
+		return h, false
+	}
+	h, err = app.PerpetualKeeper.GetMTPHealth(ctx, m, ammPool, "uusdc")
+	return h, err == nil
+}
+
 func runC10(t *testing.T, seed int64, n int, out *Out) {
 	r := rand.New(rand.NewSource(seed))
 	stats := map[string]int{}
@@ -262,13 +293,41 @@ func runC10(t *testing.T, seed int64, n int, out *Out) {
 			// price move in its own block
 			pt := h.priceTx()
 			tx(pt.req.Signer, pt.req.Msgs...)
+			// now and then nothing happens for a long time: interest and funding accrue unsettled on every position nobody names
+			postGap := false
+			if r.Intn(6) == 0 {
+				postGap = true
+				gap := []time.Duration{6 * time.Hour, 3 * 24 * time.Hour, 21 * 24 * time.Hour}[r.Intn(3)]
+				if gr := w.Block(gap, nil); gr.Err != nil || gr.Panicked {
+					break
+				}
+				tx(pt.req.Signer, pt.req.Msgs...) // prices are fed again (the old ones expired)
+				stats["longGap"]++
+			}
 			// governance moves a safety factor next to some position's health (boundary forcing), between two blocks
 			dt := 5 * time.Second
 			pred := w.c10Predict(dt)
-			if len(pred) > 0 && r.Intn(2) == 0 {
+			var gapTarget *c10Pos
+			if len(pred) > 0 && (postGap || r.Intn(2) == 0) {
 				c := pred[r.Intn(len(pred))]
+				if postGap {
+					// after a long gap: a perpetual position carrying unsettled interest, the safety factor put just above the health
+					// the force-close path will see, and (below) its owner tops it up with dust before anybody names it
+					for _, q := range pred {
+						if q.Module == "perp" && q.PredErr == "" && (gapTarget == nil || (!q.Long && r.Intn(2) == 0)) {
+							q := q
+							gapTarget = &q
+						}
+					}
+					if gapTarget != nil {
+						c = *gapTarget
+					}
+				}
 				if c.PredErr == "" && c.Health.IsPositive() && c.Health.LT(D("50")) {
-					f := D([]string{"0.999999", "1", "1.000001", "0.97", "1.03"}[r.Intn(5)])
+					f := D([]string{"0.999999", "1", "1.000001", "0.97", "1.03", "1.0005", "1.002"}[r.Intn(7)])
+					if gapTarget != nil {
+						f = D([]string{"1.0005", "1.002", "1.01"}[r.Intn(3)])
+					}
 					sf := c.Health.Mul(f)
 					if sf.GT(D("1")) && sf.LT(D("3")) {
 						w.Seed(func(ctx sdk.Context) {
@@ -292,7 +351,7 @@ func runC10(t *testing.T, seed int64, n int, out *Out) {
 			}
 			// an owner re-opens (consolidates into) one of their positions, preferably one that is close to or below the safety
 			// factor: extra leverage, or a pure collateral top-up (leverage 0 / 1) from dust to large; judged for open_healthy
-			if r.Intn(3) == 0 {
+			if gapTarget != nil || r.Intn(3) == 0 {
 				c := pred[r.Intn(len(pred))]
 				for _, q := range pred {
 					sfq := lpSafety()
@@ -303,8 +362,14 @@ func runC10(t *testing.T, seed int64, n int, out *Out) {
 						c = q
 					}
 				}
+				if gapTarget != nil {
+					c = *gapTarget
+				}
 				owner := w.byAddr[c.Owner]
 				amt := []math.Int{math.NewInt(int64(1 + r.Intn(20_000))), h.amt(100_000, 50_000_000), h.amt(50_000_000, 3_000_000_000)}[r.Intn(3)]
+				if gapTarget != nil {
+					amt = math.NewInt(int64(1 + r.Intn(20_000)))
+				}
 				if c.Module == "lp" {
 					if p, ok := w.lpPositions(w.Ctx())[c.Id]; ok && owner != nil {
 						lev := []string{"1", "1", "2", "5"}[r.Intn(4)]
@@ -326,6 +391,9 @@ func runC10(t *testing.T, seed int64, n int, out *Out) {
 					}
 				} else if m, err := w.App.PerpetualKeeper.GetMTP(w.Ctx(), sdk.MustAccAddressFromBech32(c.Owner), c.Id); err == nil && owner != nil {
 					lev := []string{"0", "0", "1", "2", "4"}[r.Intn(5)]
+					if gapTarget != nil {
+						lev = "0"
+					}
 					beforeAll := map[uint64]perptypes.MTP{}
 					for _, x := range w.App.PerpetualKeeper.GetAllMTPs(w.Ctx()) {
 						beforeAll[x.Id] = x
@@ -340,6 +408,9 @@ func runC10(t *testing.T, seed int64, n int, out *Out) {
 								line["health"] = decRaw(q.MtpHealth)
 								line["pos"] = q.Id
 								line["consolidatedInto"] = ok
+								if lh, ok2 := perpLiqHealth(w, q.Address, q.Id); ok2 {
+									line["liqHealth"] = decRaw(lh)
+								}
 							}
 						}
 					}
